@@ -268,16 +268,25 @@ func replay(vdir, repo, prop, name string, o *Obligation) (bool, map[string]inte
 	}
 	// which package? first line of the driver: // package-dir: pkg/...
 	var ran, confirmed bool
-	for _, d := range drivers {
+	// drivers of the function's own package first, then any driver of the property
+	var ordered []string
+	for pass := 0; pass < 2; pass++ {
+		for _, d := range drivers {
+			src, _ := os.ReadFile(d)
+			first := strings.SplitN(string(src), "\n", 2)[0]
+			own := strings.TrimSpace(strings.TrimPrefix(first, "// package-dir: ")) == o.PkgDir
+			if (pass == 0) == own {
+				ordered = append(ordered, d)
+			}
+		}
+	}
+	for _, d := range ordered {
 		src, _ := os.ReadFile(d)
 		first := strings.SplitN(string(src), "\n", 2)[0]
 		if !strings.HasPrefix(first, "// package-dir: ") {
 			continue
 		}
 		pkgDir := strings.TrimSpace(strings.TrimPrefix(first, "// package-dir: "))
-		if o.PkgDir != "" && o.PkgDir != pkgDir {
-			continue
-		}
 		in := map[string]interface{}{"property": prop, "obligation": name, "function": o.Func, "clause": o.Clause, "kind": o.Kind, "values": vals}
 		inFile := strings.TrimSuffix(o.File, ".smt2") + ".replay-input.json"
 		b, _ := json.MarshalIndent(in, "", " ")
@@ -308,7 +317,9 @@ func replay(vdir, repo, prop, name string, o *Obligation) (bool, map[string]inte
 		if err != nil && strings.Contains(string(out), "REPLAY-CONFIRMED") {
 			confirmed = true
 		}
-		break
+		if confirmed || !strings.Contains(string(out), "no replay case") {
+			break
+		}
 	}
 	switch {
 	case confirmed:
